@@ -7,6 +7,7 @@ package main
 import (
 	"bufio"
 	"fmt"
+	"math/rand"
 	"strings"
 	"time"
 
@@ -285,6 +286,62 @@ func (c *apiCase) add(data *gmars.WarriorData) {
 		req = fmt.Sprintf("A %d", data.Start)
 	}
 	c.finish(req, f, resp, true)
+}
+
+// addQuiet: AddWarrior without printing the observation (thousands of warriors)
+func (c *apiCase) addQuiet(data *gmars.WarriorData) {
+	if c.dead {
+		return
+	}
+	var err error
+	var h gmars.Warrior
+	f := guarded(c.deadline, func() { h, err = c.sim.AddWarrior(data) })
+	resp := "ok"
+	if err != nil {
+		resp = "err"
+	} else {
+		c.handles = append(c.handles, h)
+		c.names = append(c.names, [2]string{data.Name, data.Author})
+	}
+	req := fmt.Sprintf("a %d %s", data.Start, cellsStr(data.Code))
+	if len(data.Code) == 0 {
+		req = fmt.Sprintf("a %d", data.Start)
+	}
+	c.finish(req, f, resp, false)
+}
+
+// resetQuiet: Reset without printing the observation (tens of thousands of resets)
+func (c *apiCase) resetQuiet() {
+	if c.dead {
+		return
+	}
+	f := guarded(c.deadline, func() { c.sim.Reset() })
+	c.finish("t", f, "ok", false)
+}
+
+// disturb: other simulators come and go in the same process (created, stepped once, dropped)
+// while this one is alive; nothing about it may change. Not part of the protocol: the model is
+// not told, because there is nothing to tell.
+func (c *apiCase) disturb(rng *rand.Rand) {
+	if c.dead {
+		return
+	}
+	guarded(c.deadline, func() {
+		for k := 0; k < 10; k++ {
+			m := uint64(5 + rng.Intn(200))
+			cfg := gmars.SimulatorConfig{Mode: gmars.SimulatorMode(rng.Intn(3)), CoreSize: gmars.Address(m), Processes: gmars.Address(1 + rng.Intn(9)),
+				Cycles: 10, ReadLimit: gmars.Address(1 + rng.Intn(int(m))), WriteLimit: gmars.Address(1 + rng.Intn(int(m))), Length: 1, Distance: 1}
+			s, err := gmars.NewReportingSimulator(cfg)
+			if err != nil {
+				continue
+			}
+			w := genWarrior(rng, m, 4)
+			h, _ := s.AddWarrior(&w)
+			s.SpawnWarrior(0, gmars.Address(rng.Intn(int(m))))
+			s.RunCycle()
+			_ = h.LoadCode()
+		}
+	})
 }
 
 func (c *apiCase) spawn(wi int, off uint64) {
